@@ -432,7 +432,6 @@ Hypothesis E_len : forall a k b, len16 b -> len16 (E a k b).
 Hypothesis compress_law : forall c lvl ws, decompress c (concat (compress c lvl ws)) = Ok (concat ws).
 Hypothesis compress_det : forall c lvl (ws ws' : list bytes), concat ws = concat ws' ->
   concat (compress c lvl ws) = concat (compress c lvl ws').
-Hypothesis compress_fits : compress_small compress.
 Variable lvl : N.
 Variable ctx : cctx.
 Hypothesis ctx_strict : strict_ctx ctx.
@@ -463,7 +462,7 @@ Theorem delete_ok_refines nf matched partial tmp atmp target fs afs b es a :
   (forall q, q <> tmp -> q <> target -> bfile (fst r) q = bfile fs q).
 Proof.
   intros N1 N2 Hb Ha HL WA RA IO OD r afs'.
-  destruct (delete_solid_abs E D compress decompress verify D_len DE E_len compress_law compress_det compress_fits lvl ctx ctx_strict
+  destruct (delete_solid_abs E D compress decompress verify D_len DE E_len compress_law compress_det lvl ctx ctx_strict
               pw ctx_pw rb srb keep pwb hdr_tok content_tok nf matched b es a WA RA IO HL) as (b' & es' & RE & Eb & W' & WA' & X & _).
   destruct (rewrite_ok _ partial tmp target fs b b' N1 Hb RE) as (R1 & R2 & R3 & R4).
   assert (L' : L b' = Ok (Update.delete matched a)).
@@ -519,7 +518,7 @@ Theorem update_ok_refines kd kt excl cond walk partial tmp atmp target fs afs b 
   (forall q, q <> tmp -> q <> target -> bfile (fst r) q = bfile fs q).
 Proof.
   intros N1 N2 Hb Ha HL WA RA IO UC targets p Cn Hc Hw Hk Hr Wj OD r afs'.
-  destruct (update_container E D compress decompress verify D_len DE E_len compress_law compress_det compress_fits lvl ctx ctx_strict
+  destruct (update_container E D compress decompress verify D_len DE E_len compress_law compress_det lvl ctx ctx_strict
               pw ctx_pw rb srb keep pwb kd kt excl cond walk b es a a' jobs new WA RA IO HL UC Cn Hc Hw Hk Hr Wj)
     as (b' & es' & UF & Eb & _ & W' & WA' & X). cbv zeta in UF. fold targets in UF.
   destruct (rewrite_ok _ partial tmp target fs b b' N1 Hb UF) as (R1 & R2 & R3 & R4).
